@@ -90,10 +90,18 @@ def bc_for_class(np, geo, rank, axis, upper, cname):
     raise ValueError(cname)
 
 
+CONST0 = ["value0", "valueF", "deriv", "derivF", "mixed", "mixedF", "curv"]  # classes the sparse matrices support
+
+
 def build_bc(np, geo, rank, rot):
+    """rot: rotation index of the covering design, or ["pair", i, j]: classes CONST0[i], CONST0[j] on the two
+    sides of the first axis (all ordered pairs are enumerated for the sparse-matrix route)"""
     classes = CLASSES0 if rank == 0 else CLASSES12
     bc, s, used = {}, 0, []
     time_dep = False
+    pair = None
+    if isinstance(rot, (list, tuple)):
+        pair, rot = (rot[1], rot[2]), rot[1] + rot[2]
     for a, name in enumerate(geo["axes"]):
         if geo["periodic"][a]:
             bc[name] = "anti-periodic" if (rot + a) % 3 == 2 else "periodic"
@@ -101,6 +109,8 @@ def build_bc(np, geo, rank, rot):
             continue
         for up in (False, True):
             cname = classes[(s + rot) % len(classes)]
+            if pair is not None:
+                cname = CONST0[pair[int(up)]] if a == 0 else CONST0[(s + rot) % len(CONST0)]
             s += 1
             bc[name + ("+" if up else "-")] = bc_for_class(np, geo, rank, a, up, cname)
             used.append(cname)
@@ -578,6 +588,13 @@ def main(run):
             for op in ops:
                 for rot in range(K):
                     cases.append({"grid": spec, "op": op, "rot": rot, "seed": run.seed})
+    # sparse-matrix route: ALL ordered pairs of the constant BC classes on the two sides of the first axis
+    for spec in grids:
+        geo = geometry(spec)
+        if not geo["periodic"][0]:
+            for i in range(len(CONST0)):
+                for j in range(len(CONST0)):
+                    cases.append({"grid": spec, "op": "laplace", "rot": ["pair", i, j], "seed": run.seed})
     run.explore("checks.c03:routes_case", cases, mode="I", part="routes (interpreted kernels)", limit=900)
     # schedule independence of every prange kernel on small shapes
     sgrids = [["cart", [[0, 1], [-1, 3]], [2, 3], [False, False]], ["cart", [[0, 1], [0, 1]], [4, 3], [True, False]],
